@@ -623,4 +623,64 @@ def session (c : Cell) : Outcome := sessionWith libCfgs c
     the facts hold no recognisable hook: `dtlsHookOf [] [] l = noHook`), i.e. the tree before 90a2eb6 -/
 def LibCfgs.withoutDTLSHook (L : LibCfgs) : LibCfgs := { L with dtlsClient := { L.dtlsClient with nameHook := noHook } }
 
+/-! ## Two exporters of ONE process, one after the other, towards the SAME collector
+
+  The collector (one listener for the whole sequence, hence one set of session-ticket keys / one session
+  store) has a certificate issued by `ca1` for localhost / 127.0.0.1. Exporter A is created with its own
+  trust settings, sends a message and is closed; then exporter B is created in the same process with ITS
+  trust settings. The configurations the code builds (`libCfgs`, tied by `tie_config_fields_all_interpreted`
+  to literals that carry no session cache / session store) share NOTHING between two exporters, so the model
+  has no state to carry from A to B: each outcome is `sessionWith` of that exporter's own configuration.
+  An implementation that lets B resume A's session (crypto/tls re-checks only expiry and host name of the
+  cached leaf, pion/dtls nothing at all) shows `init-ok` for B where this model - and C18 - say `init-err`. -/
+
+/-- which CA of the run an exporter's `CAData` holds; the collector's certificate is issued by `ca1` -/
+inductive TrustKind where
+  | ca1 | ca2
+  deriving DecidableEq, Repr
+
+instance : Enum TrustKind := ⟨[.ca1, .ca2], by intro a; cases a <;> simp⟩
+
+/-- the trust settings of one exporter: `CAData` and `ServerName` (no client certificate) -/
+structure ExporterTrust where
+  ca : TrustKind
+  serverName : ServerNameKind
+  deriving DecidableEq, Repr
+
+structure Resume where
+  transport : Transport
+  peer : Peer
+  first : ExporterTrust
+  second : ExporterTrust
+  deriving DecidableEq, Repr
+
+/-- the collector's certificate as the cell vocabulary describes it from the point of view of an exporter
+    configured with `ca`: issued by the CA it trusts, or by another one -/
+def certSeenBy : TrustKind → ServerCertKind
+  | .ca1 => .trusted
+  | .ca2 => .otherCA
+
+/-- the cell one exporter of the sequence is in, taken on its own -/
+def Resume.cell (r : Resume) (e : ExporterTrust) : Cell :=
+  { transport := r.transport, serverCert := certSeenBy e.ca, serverName := e.serverName, clientCert := .none,
+    clientCA := false, peer := r.peer }
+
+/-- TLS: the library collector (TLS 1.3) or a raw crypto/tls server with MaxVersion 1.2 / 1.3 (session tickets).
+    DTLS: a raw pion/dtls server with a `SessionStore` (`srv12`; DTLS 1.2) - the library's DTLS collector accepts
+    one connection only and sets no `SessionStore`, so it can neither serve two exporters nor resume. -/
+def Resume.valid (r : Resume) : Bool :=
+  match r.transport with
+  | .tls => r.peer == .real || r.peer == .srv12 || r.peer == .srv13
+  | .dtls => r.peer == .srv12
+
+/-- the version a raw peer reports exists for crypto/tls peers only -/
+def Resume.obsVersion (r : Resume) (o : Outcome) : Outcome :=
+  if r.transport == .dtls then { o with version := none } else o
+
+/-- outcome of exporter A and of exporter B: two independent sessions -/
+def resumeWith (L : LibCfgs) (r : Resume) : Outcome × Outcome :=
+  (r.obsVersion (sessionWith L (r.cell r.first)), r.obsVersion (sessionWith L (r.cell r.second)))
+
+def resume (r : Resume) : Outcome × Outcome := resumeWith libCfgs r
+
 end Ipfix.TLS
